@@ -452,6 +452,40 @@ def r8_width_covers(cx):
         cx.ob("R8", "R8/%s.key_size" % ty, ok, g, "value-id width = needed_bytes(%s)" % ("number of values (ids are ranks)" if fld else "data size (ids are byte offsets)"))
 
 
+def r10_reader_offsets(cx):
+    """reader: the offset of a property inside an entry is the sum of the sizes of the definitions before it,
+    in definition order, starting at the offset of the part (0 for common, common size + 1 for a variant)"""
+    F = cx.F
+    f = F.one(impl_self="reader::directory_pack::layout::properties::Properties", item="new", closure=False)
+    b = F.body(f)
+    pn = b.calls(r"layout::property::Property::new$")
+    ok = len(pn) == 1 and _in_loop(b, pn[0][0])
+    if ok:
+        # offset local: initialised from param 1, incremented by raw_property.size after use
+        adds = [(i, s) for i, blk in enumerate(b.blocks) if not blk.get("cleanup") for s in blk["s"] if s["k"] == "assign" and s["rv"]["k"] == "bin" and s["rv"]["op"] in ("Add", "AddWithOverflow")]
+        inc = [(i, s) for i, s in adds if ("field", "size") in b.origins(s["rv"]["b"]) and _in_loop(b, i)]
+        o = b.origins(pn[0][1]["args"][0])
+        ok = len(inc) == 1 and ("param", 1) in o and b.dominates(pn[0][0], inc[0][0])
+        # forward iteration over the definitions
+        ok = ok and bool(b.calls(r"IntoIterator>::into_iter$")) and not b.calls(r"::rev$|::skip$|::step_by$")
+    cx.ob("R10", "R10/Properties.new", ok, f, "reader Properties::new gives each definition the running offset (initial offset + sizes of the previous definitions), iterating forward")
+    g = layout.find_parse(F, "reader::directory_pack::layout::Layout")
+    gb = F.body(g)
+    news = gb.calls(r"layout::properties::Properties::new$")
+    ok = len(news) == 2
+    if ok:
+        consts = sorted((op_const_val(t["args"][0]) is not None, i) for i, t in news)
+        common = [t for i, t in news if op_const_val(t["args"][0]) == 0]
+        variant = [t for i, t in news if op_const_val(t["args"][0]) is None]
+        ok = len(common) == 1 and len(variant) == 1
+        if ok:
+            # variant part starts after the common part and the 1-byte variant id
+            vo = gb.origins(variant[0]["args"][0])
+            plus1 = any(s["k"] == "assign" and s["rv"]["k"] == "bin" and s["rv"]["op"] in ("Add", "AddWithOverflow") and op_const_val(s["rv"]["b"]) == 1 for blk in gb.blocks for s in blk["s"])
+            ok = ("field", "size") in vo and plus1
+    cx.ob("R10", "R10/Layout.parse-parts", ok, g, "Layout::parse: common properties start at 0, every variant starts at common size + 1 (the variant id byte)")
+
+
 def r9_dedup_index(cx):
     """IndexedValueStore::add_value: the index returned for a value already present is its position in the
     whole data vector (the value id is assigned per position at finalisation)"""
@@ -487,4 +521,5 @@ RULES = [
     ("R7", r7_array_length_recorded, 1),
     ("R8", r8_width_covers, 3),
     ("R9", r9_dedup_index, 1),
+    ("R10", r10_reader_offsets, 2),
 ]
